@@ -7,6 +7,6 @@ export CARGO_NET_OFFLINE=true
 export RUSTFLAGS="--cfg rspack_sources_verif"
 unset CARGO_TARGET_DIR
 mkdir -p target evidence replays
-( cd sim && cargo +1.83.0 build --release --offline )
+( cd sim && cargo +1.83.0 build --release --offline --target-dir "$(pwd)/../target/native" )
 if [ -x ./miri_setup.sh ]; then ./miri_setup.sh || echo "setup: Miri tier unavailable (C19 falls back to the native engine only)"; fi
 echo "setup ok"
